@@ -69,6 +69,7 @@ type c4Line struct {
 	Opener string           `json:"opener,omitempty"`
 	Dust   map[string]int64 `json:"dust,omitempty"`
 	File   string           `json:"file,omitempty"`
+	Poor   int64            `json:"poor"`
 }
 
 type c4In struct {
@@ -111,11 +112,11 @@ type c4Justice struct {
 	SL          []c4SL `json:"sl"`
 	BSL2        int    `json:"bsl2"` // 1: the cheater took >= 2 HTLCs to the second level in ONE transaction
 	BSL         []c4SL `json:"bsl"`
-	BAll        int    `json:"ball"` // batched case: spend-all justice tx built and every input valid
-	Rec         int    `json:"rec"`  // y = 2: the chain watcher handed over a retribution for exactly this state
+	BAll        int    `json:"ball"`   // batched case: spend-all justice tx built and every input valid
+	Rec         int    `json:"rec"`    // y = 2: the chain watcher handed over a retribution for exactly this state
 	Legacy      int    `json:"legacy"` // the state is stored in the deprecated (pre-0.15) revocation log format
-	Hung        int    `json:"hung"` // y = 2: handleCommitSpend did not return
-	Note        string `json:"note"` // first interpreter error, for the human reader only
+	Hung        int    `json:"hung"`   // y = 2: handleCommitSpend did not return
+	Note        string `json:"note"`   // first interpreter error, for the human reader only
 }
 
 type c4Msg struct {
@@ -727,6 +728,9 @@ func TestVerifC04Justice(t *testing.T) {
 		if (fi+int(verifkit.Seed()))%5 == 1 {
 			legacyK = uint64(2 + fi%3)
 		}
+		// uneven funding split: the Cfg record carries the non-opener's share (msat)
+		poor := int64(evs[0].X)
+		lnwallet.VerifSetPoorShare(poor / 1000)
 		alice, bob, err := lnwallet.CreateTestChannels(t, ctype, channeldb.OptionNoRevLogAmtData(noAmt))
 		if err != nil {
 			t.Fatal(err)
@@ -763,7 +767,7 @@ func TestVerifC04Justice(t *testing.T) {
 		ndup := 0
 		npre := 0
 
-		out.Emit(c4Line{c4Ev: c4Ev{A: "Reset", P: "A"}, Type: tname, Opener: opener, File: filepath.Base(f),
+		out.Emit(c4Line{c4Ev: c4Ev{A: "Reset", P: "A"}, Type: tname, Opener: opener, File: filepath.Base(f), Poor: poor,
 			Dust: map[string]int64{
 				opener:    int64(alice.State().LocalChanCfg.DustLimit),
 				nonOpener: int64(bob.State().LocalChanCfg.DustLimit)}})
